@@ -219,6 +219,47 @@ def _yield_chunk(chunk):
     return len(chunk), nt, fails
 
 
+def _yieldkind_chunk(chunk):
+    """a `yield: true` subproject option is linked to the top-level option of the same name only if that option is of the SAME
+    kind; whatever the kinds, the value it resolves to satisfies its own type and choices"""
+    from mesonbuild import options as O
+    K = O.OptionKey
+    fails, nt = [], 0
+
+    def mk(kind, yielding=False):
+        if kind == 'combo':
+            return O.UserComboOption('x', 'd', 'x11', choices=['x11', 'wayland'], yielding=yielding)
+        if kind == 'feature':
+            return O.UserFeatureOption('x', 'd', 'auto', yielding=yielding)
+        if kind == 'string':
+            return O.UserStringOption('x', 'd', 'str', yielding=yielding)
+        if kind == 'boolean':
+            return O.UserBooleanOption('x', 'd', True, yielding=yielding)
+        if kind == 'integer':
+            return O.UserIntegerOption('x', 'd', 3, min_value=0, max_value=9, yielding=yielding)
+        return O.UserStringArrayOption('x', 'd', ['a'], yielding=yielding)
+    for top, sub in chunk:
+        st = O.OptionStore(False)
+        st.add_system_option('prefix', O.UserStringOption('prefix', 'd', '/usr/local'))
+        st.add_project_option(K('x', ''), mk(top))
+        st.initialize_from_top_level_project_call({}, {}, {})
+        so = mk(sub, yielding=True)
+        own = so.value
+        st.add_project_option(K('x', 'sub'), so)
+        st.initialize_from_subproject_call('sub', {}, {}, {}, {})
+        nt += 1
+        got = st.get_value_for('x', 'sub')
+        exp = st.get_value_for('x', '') if top == sub else own
+        if got != exp:
+            fails.append({'case': {'top_level_kind': top, 'subproject_kind': sub}, 'stage': 'yield-kind', 'detail': f'sub:x ({sub}, yield: true) resolves to {got!r} with a top-level {top} option of the same name; expected {exp!r}'})
+            continue
+        try:
+            mk(sub).validate_value(got)
+        except Exception:
+            fails.append({'case': {'top_level_kind': top, 'subproject_kind': sub}, 'stage': 'yield-kind', 'detail': f'sub:x resolves to {got!r}, which its own kind ({sub}) rejects'})
+    return len(chunk), nt, fails
+
+
 def _key_chunk(chunk):
     """the facts about OptionKey that the merge contracts assume: evolve(subproject=s) sets the subproject and nothing
     else, is injective on global keys, as_root() is evolve(subproject=''), equal keys are interchangeable as dict keys"""
@@ -270,6 +311,10 @@ def run(REG, tier, seed, jobs):
     ev, nt, fails = pmap(_yield_chunk, chunked(iter(ycases), 10), jobs)
     parts.append({'name': 'C07/bounded/yielding-option-explicit-value', 'function': 'OptionStore.set_option / get_option_and_value_for', 'bound': f'{len(ycases)} cases: parent value x explicit subproject value (none, or each choice incl. the declared default) x 5 sources',
                   'evaluations': ev, 'distinct_nontrivial': nt, 'rule': 'non-trivial: an explicit value is given', 'exhaustive': True, 'failures': fails})
+    kinds = ['combo', 'feature', 'string', 'boolean', 'integer', 'array']
+    ev, nt, fails = pmap(_yieldkind_chunk, chunked(iter([(a, b) for a in kinds for b in kinds]), 6), jobs)
+    parts.append({'name': 'C07/bounded/yielding-only-between-options-of-the-same-kind', 'function': 'OptionStore.add_project_option / get_option_and_value_for', 'bound': 'all 36 pairs (kind of the top-level option, kind of the yielding subproject option) over combo, feature, string, boolean, integer, array',
+                  'evaluations': ev, 'distinct_nontrivial': nt, 'rule': 'every pair', 'exhaustive': True, 'failures': fails})
     ev, nt, fails = pmap(_key_chunk, chunked(iter([None, '', 'sub', 'other', 'x y']), 1), jobs)
     parts.append({'name': 'C07/bounded/OptionKey-facts-assumed-by-the-merge-contracts', 'function': 'OptionKey.evolve / as_root / __eq__ / __hash__', 'bound': '40 keys (5 names x 4 subprojects x 2 machines) x 5 target subprojects',
                   'evaluations': ev, 'distinct_nontrivial': nt, 'rule': 'every key', 'exhaustive': True, 'failures': fails})
@@ -284,5 +329,6 @@ def run(REG, tier, seed, jobs):
 CHECKS = {
     'C07/bounded/precedence-all-source-subsets': (_prec_chunk, lambda c: (c['kind'], c['mask'])),
     'C07/bounded/yielding-option-explicit-value': (_yield_chunk, lambda c: (c['parent_value'], c['explicit_sub_value'], c['source'])),
+    'C07/bounded/yielding-only-between-options-of-the-same-kind': (_yieldkind_chunk, lambda c: (c['top_level_kind'], c['subproject_kind'])),
     'C07/bounded/directory-defaults-follow-prefix': (_prefix_chunk, lambda c: (c['default_options'], c['machine_file'], c['command_line'], c['explicit_sysconfdir'])),
 }
